@@ -235,6 +235,27 @@ def dino(prog: Program, rep: Report):
             if isinstance(st, ast.Assign) and isinstance(st.targets[0], ast.Subscript) and isinstance(st.targets[0].value, ast.Subscript) \
                     and isinstance(st.targets[0].value.value, ast.Name) and st.targets[0].value.value.id in mask_lists:
                 writes.append((n, None, st.targets[0].value.value.id, st.targets[0].value.slice))
+    if not writes and mask_lists:
+        # the written mask is the element variable of a loop over the whole list: for m in masks / for i, m in enumerate(masks)
+        for n, var, val in fa.stores():
+            if not var.endswith("[]") or "." in var:
+                continue
+            mv = var[:-2]
+            for d in cfg.reaching().get(n, {}).get(mv, ()):
+                nd_ = cfg.nodes[d]
+                if nd_.kind != "next":
+                    continue
+                it_ = nd_.owner.iter
+                if isinstance(it_, ast.Call) and isinstance(it_.func, ast.Name) and it_.func.id in ("enumerate", "zip") and it_.args:
+                    cands_ = it_.args
+                else:
+                    cands_ = [it_]
+                for c_ in cands_:
+                    if isinstance(c_, ast.Name) and c_.id in mask_lists:
+                        rep.bad("G8.dino-budget", co, "masked-subset", f"the generation loop (line {nd_.lineno}) runs over every entry of "
+                                f"'{c_.id}': all batch_size * num_views masks are filled, not only the first int(batch_size * "
+                                f"num_views * mask_prob)", line=nd_.lineno, clause="C17.1")
+                        return
     if not writes or not mask_lists:
         rep.unk("G8.dino-budget", co, "masked-subset", "mask generation of unrecognised shape (helpers not inlinable, or the masks are "
                 "not a list of zero tensors filled in place)", clause="C17.1")
